@@ -71,9 +71,10 @@ what was done about each:
 Not caught, and why: **C03-m3** needs two negotiations overlapping in time on a live ICE/DTLS
 connection (outside the C03 claim). **C02-m12** (round 7, evaluated in the last hour) advances the
 per-stream outbound sequence number without the modulo, so the 65537th ordered message on one
-channel cannot be serialised: no harness makes `_outbound_stream_seq` part of a symbolic
-pre-state, and the history is far beyond every bound; a STEP harness over `_send` with that
-counter symbolic would decide it (not built for lack of time - a stated gap, not a claim).
+channel cannot be serialised: the history is far beyond every bound, and no harness had
+`_outbound_stream_seq` in its symbolic pre-state; `step-send` now draws that counter from the
+whole 16-bit range and asserts that it advances modulo 2^16 and that every fragment serialises,
+which reports the change in one inductive step.
 Changes caught only by a *sibling* property's check are shown
 with that check in the table (C05-m3 after fix ea7c0f1: C01/C17; C05-m4: C15; C05-m12: C06/C17).
 
